@@ -159,12 +159,15 @@ def operands(rnd, FST, ctx):
         v = mb_variant(s)
         if v != s:
             ops.append((v, (lambda s=v: FST(s))))
-    for m, srcs in list(MODE_SAMPLES.items()) + list(MODE_SAMPLES_MORE.items()):
+    for m, srcs in list(MODE_SAMPLES.items()) + list(MODE_SAMPLES_MORE.items()) + list(generated_sequences().items()):
         for s in srcs:
             ops.append((f'{m}:{s}', (lambda s=s, m=m: FST(s, m))))
             v = mb_variant(s)
             if v != s:
                 ops.append((f'{m}:{v}', (lambda s=v, m=m: FST(s, m))))
+            if m.startswith('_') or m in ('arguments', 'Tuple', 'pattern', 'arguments_lambda'):
+                for v in trail_variants(s):
+                    ops.append((f'{m}:{v}', (lambda s=v, m=m: FST(s, m))))
     return ops
 
 
@@ -175,6 +178,48 @@ MODE_SAMPLES_MORE = {
     '_aliases': ['a.b.c', 'a.b.c as d, x.k.v'], 'Import_name': ['a.b.c', 'a.b.c.x'], '_Import_names': ['a.b.c, x.k', 'a.b.c'], '_withitems': ['a as b, c as (x, k)'],
     '_type_params': ['a: b, *c, **x'], '_comprehensions': ['for a in b if c for x in k'], '_decorator_list': ['@a.b.c\n@x(k)'],
 }
+
+
+def trail_variants(s):
+    """the same fragment followed by trailing trivia (spaces / a comment), also with multi-byte names: end offsets must be byte offsets"""
+    if not s.strip() or '\n' in s or '#' in s:
+        return []
+    m = mb_variant(s)
+    return [m + '  ', m + '  # é c', s + ' ']
+
+
+def generated_sequences():
+    """deterministic random sequences for the comma-separated kinds: every element kind at every position"""
+    import random
+    r = random.Random(19)
+    out = {}
+    def seqs(items, n, k=(1, 5)):
+        res = []
+        for _ in range(n):
+            res.append(', '.join(r.choice(items) + str(i) if not r.choice(items).endswith('!') else '' for i in range(r.randint(*k))))
+        return res
+    names = ['a', 'b', 'é', 'x']
+    al = []
+    for _ in range(30):
+        parts = []
+        for i in range(r.randint(1, 5)):
+            n = r.choice(names) + str(i)
+            parts.append(r.choice([n, n, '*' + n, n + '=v', '**' + n, n + '=' + r.choice(names), '*not ' + n]))
+        al.append(', '.join(parts))
+    out['_arglikes'] = al
+    ar = []
+    for _ in range(30):
+        parts = []
+        for i in range(r.randint(1, 5)):
+            n = r.choice(names) + str(i)
+            parts.append(r.choice([n, n, '*' + n, n + '=1', '**' + n, n + ': int', n + ': int = 2', '/', '*']))
+        ar.append(', '.join(parts))
+    out['arguments'] = ar
+    out['Tuple'] = [', '.join(r.choice([n + str(i), '*' + n + str(i), n + str(i) + '.y', '(' + n + str(i) + ')']) for i, n in enumerate(r.choices(names, k=r.randint(2, 4)))) for _ in range(15)]
+    out['_withitems'] = [', '.join(r.choice([n + str(i), n + str(i) + ' as t' + str(i), n + str(i) + ' as (p, q)']) for i, n in enumerate(r.choices(names, k=r.randint(1, 3)))) for _ in range(12)]
+    out['_type_params'] = [', '.join(r.choice(['T' + str(i), '*T' + str(i), '**P' + str(i), 'T' + str(i) + ': int']) for i in range(r.randint(1, 3))) for _ in range(10)]
+    out['pattern'] = [', '.join(r.choice([n + str(i), '*' + n + str(i), '1', '"s"', n + str(i) + '.y', '[' + n + str(i) + ']']) for i, n in enumerate(r.choices(names, k=r.randint(2, 4)))) for _ in range(12)]
+    return out
 
 
 def mb_variant(s):
@@ -314,6 +359,57 @@ def judge(ctx, FST, label, build, mode, entry, opts, rnd):
             ctx.violation(f'put-with-coercion-differs-from-explicit:{ocls}->{mname}', f'put of {ocls} {short(before[0], 60)!r} into a {mname} slot: implicit coercion -> {short(res[0], 140)}; explicit as_() then put -> {short(res[1], 140)}', case)
 
 
+SLOT_HOSTS = [   # (host program, path to the slot parent, field, idx): expression-valued slots, single and list
+    ('h = [_, q]', ['body', 0, 'value'], 'elts', 0), ('h = (_, q)', ['body', 0, 'value'], 'elts', 0), ('h = {_, q}', ['body', 0, 'value'], 'elts', 1), ('f(_, q)', ['body', 0, 'value'], 'args', 0),
+    ('h = _', ['body', 0], 'value', None), ('h = q + _', ['body', 0, 'value'], 'right', None), ('h = q[_]', ['body', 0, 'value'], 'slice', None), ('del _, q', ['body', 0], 'targets', 0),
+    ('with _, q: pass', ['body', 0], 'items', 0), ('import _, q', ['body', 0], 'names', 0), ('def f(_, q): pass', ['body', 0, 'args'], 'args', 0), ('f(q, _=1)', ['body', 0, 'value'], 'keywords', 0),
+    ('match s:\n case [_, q]: pass', ['body', 0, 'cases', 0, 'pattern'], 'patterns', 0), ('class C(_, q): pass', ['body', 0], 'bases', 0), ('def f[_, Q](): pass', ['body', 0], 'type_params', 0),
+]
+
+
+def run_put_option_consistency(ctx, FST, ops):
+    """A put into a slot behaves the same whether `coerce` (on or off) is given per call or as the thread default of an options() block:
+    same outcome class (raised exception type, or resulting structure and source). Deterministic over all operands x SLOT_HOSTS."""
+    k = 0
+    for label, build in ops:
+        for hsrc, hpath, hfield, hidx in SLOT_HOSTS:
+            for coerce in (False, True):
+                k += 1
+                if not ctx.mine(k):
+                    continue
+                if ctx.elapsed() > ctx.budget_s * 0.9:
+                    ctx.count('put_option_cells_skipped_time')
+                    return
+                res = []
+                for how in ('per-call', 'block'):
+                    try:
+                        code = build()
+                    except Exception:
+                        res = None
+                        break
+                    host = FST(hsrc, 'exec')
+                    t = host
+                    for p in hpath:
+                        t = getattr(t, p) if isinstance(p, str) else t[p]
+                    try:
+                        if how == 'per-call':
+                            t.put(code, hidx, field=hfield, coerce=coerce)
+                        else:
+                            with FST.options(coerce=coerce):
+                                t.put(code, hidx, field=hfield)
+                        res.append(('ok', CTX_RE.sub('', ast.dump(host.a)), host.src))
+                    except Exception as e:
+                        res.append(('exc', type(e).__name__))
+                if res is None:
+                    continue
+                ctx.count('put_option_consistency_checks')
+                ctx.evaluations += 1
+                ctx.cell('put-option', hfield, coerce, res[0][0])
+                if res[0] != res[1]:
+                    ctx.violation(f'per-call-coerce-option-differs-from-block-option:{hfield}', f'put of {label!r} into {hsrc!r}.{hfield} with coerce={coerce}: per call -> {res[0][:2]}, inside FST.options(coerce={coerce}) -> {res[1][:2]}',
+                                  {'operand': label, 'host': hsrc, 'field': hfield, 'coerce': coerce, 'part': 'put-option'})
+
+
 def run(ctx):
     from fst import FST
     from .. import corpus, edits
@@ -334,6 +430,7 @@ def run(ctx):
                     if opts and ctx.rnd.random() < 0.6:
                         continue
                     judge(ctx, FST, label, build, mode, entry, opts, ctx.rnd)
+    run_put_option_consistency(ctx, FST, ops)
     # REAL-derived operands
     while not ctx.out_of_time():
         fn, src = corpus.window(ctx.rnd, max_len=1200)
